@@ -61,7 +61,9 @@ class SimLock:
 
     def acquire(self, blocking: bool = True, timeout: float = -1) -> bool:
         s = self._s
-        if s.aborting or not s.active:
+        if s.aborting or not s.active or s.foreign():
+            # torn-down run, or a thread that does not belong to this scheduler (e.g. a thread of an earlier, aborted
+            # run that is still unwinding): never touch the scheduling state
             self._locked = True
             return True
         if not self._locked:
@@ -84,7 +86,7 @@ class SimLock:
             raise RuntimeError("release unlocked lock")
         self._locked = False
         s = self._s
-        if s.aborting or not s.active:
+        if s.aborting or not s.active or s.foreign():
             return
         s.yield_point("release")
 
@@ -176,6 +178,13 @@ class Scheduler:
         try:
             if any(t.state != DONE for t in self.threads[1:]):
                 self.abort(None)
+            if self.aborting:
+                # give the released threads a moment (real time) to unwind, so that they do not overlap the next run
+                real_sleep = self._saved.get("sleep", time.sleep)
+                for _ in range(400):
+                    if all(t.state == DONE for t in self.threads[1:]):
+                        break
+                    real_sleep(0.005)
         finally:
             self.uninstall()
 
@@ -186,6 +195,10 @@ class Scheduler:
         tcb = TCB(len(self.threads), f"t{len(self.threads)}")
         self.threads.append(tcb)
         self.world.log("thread_start", tcb.name)
+        owner = getattr(fn, "__self__", None)  # threading.Thread.start() passes its bound _bootstrap
+        if isinstance(owner, threading.Thread):
+            # OS thread idents are reused as soon as a thread has exited: Thread -> TCB must not go through the ident (S7)
+            owner._sim_tcb = tcb  # type: ignore[attr-defined]
 
         def runner() -> None:
             tcb.real_ident = _thread.get_ident()
@@ -213,6 +226,11 @@ class Scheduler:
         ident = _real_start_new_thread(runner, ())
         self.yield_point("start")
         return ident
+
+    def foreign(self) -> bool:
+        """True when the calling OS thread is not the simulated thread that holds the baton"""
+        cur = self.current
+        return cur is None or _thread.get_ident() != cur.real_ident
 
     def me(self) -> TCB:
         cur = self.current
@@ -278,7 +296,7 @@ class Scheduler:
 
     def block(self, wake: Callable[[], bool], deadline: float | None, what: str = "") -> bool:
         """park the current thread until wake() is true (returns True) or the deadline passed (returns False)"""
-        if self.aborting:
+        if self.aborting or self.foreign():
             raise ThreadAbort()
         me = self.me()
         me.wake, me.deadline, me.state, me.timed_out, me.what = wake, deadline, BLOCKED, False, what
@@ -351,6 +369,10 @@ class Scheduler:
     def _trace(self, frame, event, arg):  # pragma: no cover - exercised by harnesses
         if event != "call":
             return None
+        if not frame.f_code.co_flags & 0x2:
+            # module and class bodies (CO_NEWLOCALS unset) run only on the first import in a process: tracing them would
+            # make an execution depend on what was imported before (fresh-interpreter replays diverged)
+            return None
         fn = frame.f_code.co_filename
         for suffix in self.preempt_files:
             if fn.endswith(suffix):
@@ -384,7 +406,7 @@ def _patched_join(sched: Scheduler):
             raise RuntimeError("cannot join thread before it is started")
         if self is threading.current_thread():
             raise RuntimeError("cannot join current thread")
-        tcb = sched._by_ident.get(self.ident or -1)
+        tcb = getattr(self, "_sim_tcb", None) or sched._by_ident.get(self.ident or -1)
         if tcb is None:
             # the OS thread has not registered yet: it is parked before its first instruction
             cands = [t for t in sched.threads if t.real_ident == 0]
@@ -411,7 +433,7 @@ def _patched_is_alive(sched: Scheduler):
 
     def is_alive(self: threading.Thread) -> bool:
         if sched.active and not sched.aborting and self._started.is_set():  # type: ignore[attr-defined]
-            tcb = sched._by_ident.get(self.ident or -1)
+            tcb = getattr(self, "_sim_tcb", None) or sched._by_ident.get(self.ident or -1)
             if tcb is not None and tcb.idx != 0:
                 return tcb.state != DONE
         return orig(self)
